@@ -266,6 +266,9 @@ def c17(ck, thorough):
 
 def c20(ck, thorough):
     """building and metadata"""
+    # the packed builder's give-up logic: a searcher that is built holds every pattern at its input position
+    mc(ck, "ACPackedBuilder", "c20_packedbuilder", {"Limit": 5 if thorough else 3, "MaxAdds": 12 if thorough else 8},
+       ["IdsArePositions", "NeverBuiltWhenUnsupported"])
     events_trace(ck, "c20_build", "build", ["--scale", 2 if thorough else 1], "TraceApi", "TraceApiBuild.cfg",
                  "build", shards=8, sig_fields=("shape", "req", "mk", "sk"), distinct_drop=())
     harness_calls(ck, "c20_ids", "ids", scale=2 if thorough else 1, shards=8, what="pattern-ids")
